@@ -490,3 +490,71 @@ func checkUnitFlagDecompress(c *Ctx, rule string) {
 		c.Bad(rule, "adapters", "decompress-follows-envelope-flag", token.NoPos, "no decompression of enveloped units found in the envelope adapters: shape changed")
 	}
 }
+
+// checkMessageContentType (defect D49): a Content-Type whose value is taken from message
+// content (google.api.HttpBody.content_type) - not a constant, not prefix + codec name - can be
+// the empty string, which is not a valid media type.  It is stored only where the value is
+// known to be non-empty.
+func checkMessageContentType(c *Ctx, rule, ifaceName, method string) {
+	p := c.P
+	iface := p.Iface(ifaceName)
+	if iface == nil {
+		fatalf("anchor=%s not found", ifaceName)
+	}
+	n := 0
+	seen := map[ssa.Instruction]bool{}
+	for _, t := range p.Implementers(iface) {
+		m := p.MethodOf(t, method)
+		if m == nil {
+			continue
+		}
+		for _, fn := range SortedFuncs(p.Reach(m)) {
+			if !p.inScope(fn) {
+				continue
+			}
+			for _, hm := range HeaderMutations(fn) {
+				if hm.Key == nil || hm.Val == nil || seen[hm.Instr] || (hm.Op != "Set" && hm.Op != "Add") {
+					continue
+				}
+				k, isK := ConstString(hm.Key)
+				if !isK || textproto.CanonicalMIMEHeaderKey(k) != "Content-Type" {
+					continue
+				}
+				fromMessage := false
+				for _, l := range Origins(hm.Val) {
+					if l.Kind != "call" {
+						continue
+					}
+					lc := l.Call.Common()
+					if lc.IsInvoke() && N(lc.Method) == "String" {
+						fromMessage = true
+					}
+					if sc := lc.StaticCallee(); sc != nil && N(sc) == "String" && strings.Contains(CalleeName(l.Call), "protoreflect") {
+						fromMessage = true
+					}
+				}
+				if !fromMessage {
+					continue
+				}
+				seen[hm.Instr] = true
+				n++
+				nonEmpty := false
+				for _, f := range FactsAt(hm.Instr.Block()) {
+					cmp, ok := f.AsCmp()
+					if !ok || cmp.Op != token.NEQ {
+						continue
+					}
+					if s, isC := ConstString(cmp.Y); isC && s == "" && (cmp.X == hm.Val || strip(cmp.X) == strip(hm.Val)) {
+						nonEmpty = true
+					}
+				}
+				c.Check(nonEmpty, rule, FuncName(fn), "message-content-type-non-empty", hm.Instr.Pos(),
+					"a Content-Type taken from the message is stored only when it is not empty",
+					"a Content-Type taken from message content is stored unconditionally: for a message without content type the peer gets 'Content-Type:' with an empty value, which is not a valid media type")
+			}
+		}
+	}
+	if n == 0 {
+		c.Bad(rule, ifaceName+"."+method, "message-content-type-non-empty", token.NoPos, "no Content-Type taken from message content is written under "+method+": shape changed")
+	}
+}
